@@ -119,7 +119,8 @@ def run(chk: Check, tier: str):
     rng = random.Random(chk.seed)
     infer.verify_theorems(chk, ["ModelsExist", "ZModel"], tier, rng)
     # ---- path G: every base of <=2 conditionals over 2 atoms, both modes, both variants
-    rows = infer.gen_vectors(chk, maxb=2, with_c=False)
+    # quick: every base of <= 2 conditionals; thorough: every base of <= 3 conditionals (91 881 more), partitions only
+    rows = infer.gen_vectors(chk, maxb=(2 if tier == "quick" else 3), with_c=False, with_ans=False)
     tasks, meta = [], []
     for row in rows:
         sig = ["a", "b"]
@@ -219,7 +220,7 @@ def run(chk: Check, tier: str):
     chk.cov["refusal_cases"] = len(rcases)
     chk.cov["exhaustive"] = True
     chk.cov["rule"] = (
-        "path G: every multiset of <=2 semantic conditionals over 2 atoms (3402 bases, all consistency shapes) x {strict, extended} x "
+        "path G: every multiset of <=2 (thorough: <=3, 95 283 bases) semantic conditionals over 2 atoms, all consistency shapes, x {strict, extended} x "
         "{consistency, consistency_indices}: returned partition compared as a sequence of key sets with Part(B) emitted by TLC. path T: seeded bases "
         "over 2-4 atoms with 0-6 conditionals (every 40th the empty base): both variants and modes, plus consistency_diagnostics for fact lists of "
         "1-2 formulas in all (extended, uses_facts) modes, validated by TLC (Trace_Ops partition/diag events); refusal: every operator x back-end x mode "
